@@ -18,6 +18,7 @@ import (
 	"strings"
 	"syscall"
 	"time"
+	"unicode/utf8"
 
 	"crypto/rand"
 
@@ -332,6 +333,11 @@ func (m *machine) checkNoInflation() {
 	for _, mf := range m.roundFiles {
 		if !mf.parseable {
 			return // a damaged file may yield garbage counts: totality only
+		}
+		if mf.dec != nil && !utf8.ValidString(mf.dec.MetaRaw) {
+			// damage turned a metadata byte into invalid UTF-8: the report's JSON
+			// replaces it, so its program identity no longer compares equal
+			return
 		}
 	}
 	ents, _ := os.ReadDir(m.loc)
